@@ -32,7 +32,7 @@ func main() {
 		hx.GenProbe(2000, len(os.Args) > 2 && os.Args[2] == "vm")
 		return
 	}
-	needDriver := map[string]bool{"c11": true, "c12": true, "c17": true, "c16": true, "evalprobe": true, "evalone": true}
+	needDriver := map[string]bool{"c11": true, "c12": true, "c17": true, "c16": true, "evalprobe": true, "evalone": true, "c01": true, "c02": true, "c09": true, "c10": true, "c13": true, "c14": true, "c15": true}
 	var d *hx.Driver
 	if needDriver[os.Args[1]] {
 		var err error
@@ -65,6 +65,20 @@ func main() {
 		rep = hx.RunC17(d)
 	case "c16":
 		rep = hx.RunC16(d)
+	case "c01":
+		rep = hx.RunC01(d)
+	case "c02":
+		rep = hx.RunC02(d)
+	case "c09":
+		rep = hx.RunC09(d)
+	case "c10":
+		rep = hx.RunC10(d)
+	case "c13":
+		rep = hx.RunC13(d)
+	case "c14":
+		rep = hx.RunC14(d)
+	case "c15":
+		rep = hx.RunC15(d)
 	default:
 		fmt.Fprintln(os.Stderr, "unknown component", os.Args[1])
 		os.Exit(2)
